@@ -261,3 +261,21 @@ def quantifier_of(rets: list):
             final = final[1] if final[0] == "not" else ("not", final)
         return (q, ("comp", "gen", final, tuple(gens)))
     return None
+
+
+def stateless_obligations(model, rep, rule: str, qnames, why: str = "the answer can depend on earlier calls on the same objects (or the caller's data is changed)") -> None:
+    """One obligation per routine: the effects analysis (interprocedural: callees' summaries are applied at their call sites) finds no write to
+    a parameter's object, to `self`, to a module-level container or to a mutable default argument."""
+    from ..effects import Effects
+
+    eff = Effects(model)
+    for q in qnames:
+        if not model.has_func(q):
+            continue
+        f = model.func(q)
+        sm = eff.summary(f)
+        if sm.mutates:
+            p_, es = next(iter(sm.mutates.items()))
+            rep.refuted(rule, construct(f, "stateless"), f"modifies `{p_}` ({es[0].how}): {why}", loc(f, es[0].line))
+        else:
+            rep.proven(rule, construct(f, "stateless"), loc=loc(f))
